@@ -45,16 +45,20 @@ pub struct CliCase {
 	/// relative output directory below the case's scratch directory ("" = the directory itself)
 	pub out_rel: String,
 	pub precreate: bool,
+	/// the output directory already holds (longer) files under the four target names, as after an
+	/// earlier run with another key type
+	#[serde(default)]
+	pub stale: bool,
 	pub invalid: Option<Invalid>,
 }
 
 static COUNTER: AtomicU64 = AtomicU64::new(0);
 
-fn cli_path(build: &str) -> String {
+pub fn cli_path(build: &str) -> String {
 	format!("{}/target/cli-{build}/release/rustls-cert-gen", keys::verif_root())
 }
 
-fn list_files(dir: &std::path::Path, out: &mut Vec<PathBuf>) {
+pub fn list_files(dir: &std::path::Path, out: &mut Vec<PathBuf>) {
 	if let Ok(rd) = std::fs::read_dir(dir) {
 		for e in rd.flatten() {
 			let p = e.path();
@@ -93,6 +97,19 @@ fn run_case(c: &CliCase, exe: &str, scratch: &std::path::Path, info: &mut CaseIn
 	let out_dir = if c.out_rel.is_empty() { scratch.to_path_buf() } else { scratch.join(&c.out_rel) };
 	if c.precreate {
 		std::fs::create_dir_all(&out_dir).map_err(|e| format!("INTERNAL: {e}"))?;
+	}
+	{
+		let ee = c.cert_name.clone().unwrap_or_else(|| "cert".into());
+		let ca = c.ca_name.clone().unwrap_or_else(|| "root-ca".into());
+		let collide = ee == ca || ee == format!("{ca}.key") || ca == format!("{ee}.key");
+		if c.stale && c.invalid.is_none() && !collide {
+			info.class("stale-files-present");
+			std::fs::create_dir_all(&out_dir).map_err(|e| format!("INTERNAL: {e}"))?;
+			for (name, label) in [(format!("{ee}.pem"), "CERTIFICATE"), (format!("{ee}.key.pem"), "PRIVATE KEY"), (format!("{ca}.pem"), "CERTIFICATE"), (format!("{ca}.key.pem"), "PRIVATE KEY")] {
+				let old = pemstrict::encode(label, &vec![0x42u8; 6000]);
+				std::fs::write(out_dir.join(name), old).map_err(|e| format!("INTERNAL: {e}"))?;
+			}
+		}
 	}
 	let mut cmd = Command::new(exe);
 	cmd.arg("--output").arg(&out_dir);
@@ -371,7 +388,7 @@ fn cli_case() -> BoxedStrategy<CliCase> {
 			prop::option::of(file_name()),
 			prop::option::of(file_name()),
 			prop_oneof![2 => Just(String::new()), 1 => Just("out".to_string()), 1 => Just("a/b c/ü".to_string()), 1 => file_name()],
-			any::<bool>(),
+			(any::<bool>(), prop::bool::weighted(0.25)),
 			prop_oneof![
 				6 => Just(None),
 				// a country string with exactly one character outside the PrintableString alphabet, at any position
@@ -395,7 +412,7 @@ fn cli_case() -> BoxedStrategy<CliCase> {
 			],
 		),
 	)
-		.prop_map(|((build, alg, sans, common_name, country, organization, client_auth, server_auth), (cert_name, ca_name, out_rel, precreate, invalid))| {
+		.prop_map(|((build, alg, sans, common_name, country, organization, client_auth, server_auth), (cert_name, ca_name, out_rel, (precreate, stale), invalid))| {
 			let mut build = build;
 			let mut alg = alg.map(|s| s.to_string());
 			// algorithm offered by the build
@@ -422,6 +439,7 @@ fn cli_case() -> BoxedStrategy<CliCase> {
 				ca_name,
 				out_rel,
 				precreate,
+				stale,
 				invalid,
 			}
 		})
@@ -454,7 +472,7 @@ fn collide_case() -> BoxedStrategy<CliCase> {
 pub fn def() -> PropertyDef {
 	PropertyDef {
 		id: "C18",
-		rule: "The real rustls-cert-gen binaries (ring and aws-lc-rs builds) are run with generated option sets: each key algorithm the build offers, 0..5 --san values (host names, IPv4/IPv6 literals, look-alikes such as 1.2.3 or 256.1.1.1), common/country/organisation strings incl. non-ASCII, both purpose flags, base names, output directories (existing, missing, nested, with spaces / non-ASCII). Valid: exit 0, exactly the four files, strict PEM, each key matches its certificate, requested key algorithm, CA is a CA with keyCertSign+cRLSign, SANs / CN / EKUs exactly as given, OpenSSL and webpki accept leaf -> CA. Invalid (non-printable country, non-ASCII SAN, --rsa / --ecdsa-p521 on ring): non-zero exit, no panic, no file written. Non-trivial = at least two non-default options.",
+		rule: "The real rustls-cert-gen binaries (ring and aws-lc-rs builds) are run with generated option sets: each key algorithm the build offers, 0..5 --san values (host names, IPv4/IPv6 literals, look-alikes such as 1.2.3 or 256.1.1.1), common/country/organisation strings incl. non-ASCII, both purpose flags, base names, output directories (existing, missing, nested, with spaces / non-ASCII; in a quarter of the valid cases already holding longer files under the four target names, which must be replaced). Valid: exit 0, exactly the four files, strict PEM, each key matches its certificate, requested key algorithm, CA is a CA with keyCertSign+cRLSign, SANs / CN / EKUs exactly as given, OpenSSL and webpki accept leaf -> CA. Invalid (non-printable country, non-ASCII SAN, --rsa / --ecdsa-p521 on ring): non-zero exit, no panic, no file written. Non-trivial = at least two non-default options.",
 		assumptions: vec!["OpenSSL and webpki path validation; verification time 2023-11-14", "option values never start with '-' (they would be parsed as flags)"],
 		subs: vec![
 			prop_sub("options", 1_600, 12_000, cli_case, check_cli),
